@@ -487,8 +487,8 @@ class System:
             resnorm0 = resnorm
             iiter = 0
             while iiter < miniter or not resnorm <= tol:
-                if numpy.isnan(resnorm):
-                    raise SolverError('residual norm is not a number')
+                if not numpy.isfinite(resnorm):
+                    raise SolverError('residual norm is not finite')
                 if maxiter is not None and iiter >= maxiter:
                     raise SolverError(f'failed to converge in {maxiter} iterations')
                 iiter += 1
@@ -1427,8 +1427,8 @@ class _with_solve:
                 iiter, (lhs, info) = next(it)
                 resnorm0 = info.resnorm
                 while not info.resnorm <= tol or iiter < miniter:
-                    if numpy.isnan(info.resnorm):
-                        raise SolverError('residual norm is not a number')
+                    if not numpy.isfinite(info.resnorm):
+                        raise SolverError('residual norm is not finite')
                     if iiter >= maxiter:
                         raise SolverError(f'failed to reach target tolerance in {maxiter} iterations')
                     recontext(f'{iiter+1} ({100 * numpy.log(resnorm0 / max(info.resnorm, tol)) / numpy.log(resnorm0 / tol):.0f}%)')
